@@ -227,7 +227,7 @@ def run(ctx):
         asan = F.asan_build(ctx, ["mfront", "mfront-query"])
         if asan:
             env = dict(F.ASAN_ENV, LD_LIBRARY_PATH=F.asan_lib_path())
-            for n, c in enumerate(F.sanitized_subset(cases, 1000)):
+            for n, c in enumerate(F.sanitized_subset(cases)):
                 kind = c["kind"]
                 sp = SEARCH if c["fam"] == "seed" else []
                 if n % 4 != 3:
@@ -284,6 +284,6 @@ def run(ctx):
         "files are generated by TLC from MFrontInput.tla (12 DSLs) and by mutation of repository inputs chosen for keyword coverage; arbitrary byte "
         "strings are covered only through the byte-level mistakes (NUL, invalid UTF-8, control bytes, unterminated strings / comments / raw strings)",
         "quick: 3 DSLs, 32 kinds of mistakes, 2 seed files, mfront-query on a quarter of the files; thorough: 12 DSLs, every kind, 3 seed files, every "
-        "interface of the build by rotation, a second query set, sanitized binaries (ASan+UBSan without vptr) on 1000 files chosen one per "
+        "interface of the build by rotation, a second query set, sanitized binaries (ASan+UBSan without vptr) on about 1000 files (VF_ASAN_BUDGET) chosen one per "
         "(DSL, keyword, mistake), end-of-input mistakes first; a run that reaches the time limit is repeated alone with three times the limit",
         "interfaces are those compiled in the verification build (cmake defaults): generic for behaviours and models, all material property interfaces"])
